@@ -18,6 +18,7 @@ CONSTANTS
   SymSet = {TRUE, FALSE}
   WithB = TRUE
   AllOrders = TRUE
+  RestartIters = {1}
 INVARIANT TypeOK
 INVARIANT NoError
 INVARIANT WeightOne
